@@ -19,7 +19,7 @@ HDR = ("From Coq Require Import String ZArith List Bool.\nFrom SynRBL Require Im
        "Import ListNotations.\nOpen Scope string_scope.\n")
 DEFS = "Definition nz (tbl : list (string * string)) (s e : string) : bool := String.eqb (normalize (fun t => look tbl t t) s) e.\n"
 FAMILY = ["CCCO", "CCOC", "COCC", "OCCC", "CC(C)O", "NCCO", "OCCN", "CCN", "CNC", "NCC", "OCC", "CCO", "COC", "CC(=O)O", "OC(C)=O", "COC=O",
-          "c1ccccc1O", "Oc1ccccc1", "CC=O", "C=CO", "C1CO1", "ClCCBr", "BrCCCl", "CCl", "ClC", "[Na+].[Cl-]", "O", "[OH-]", "N#N", "OO", "[H]Cl", "Cl", "[H]O[H]", "[H][H]"]
+          "c1ccccc1O", "Oc1ccccc1", "CC=O", "C=CO", "C1CO1", "[2H]O[2H]", "[2H]C([2H])([2H])O", "[13CH3]O", "[18OH2]", "[2H]Cl", "CC([2H])=O", "ClCCBr", "BrCCCl", "CCl", "ClC", "[Na+].[Cl-]", "O", "[OH-]", "N#N", "OO", "[H]Cl", "Cl", "[H]O[H]", "[H][H]"]
 
 
 def stereo_free(s):
